@@ -527,7 +527,16 @@ func lossyJudge(out *core.Outcome, m *refts.Model, b *refts.Built, base map[uint
 					}
 					sig := "pusi=1"
 					if g.d.FirstPacket != nil && !g.d.FirstPacket.Header.PayloadUnitStartIndicator {
-						sig = "first-packet-pusi=0"
+						// the recorded finding K03 is exactly: a tail fragment that begins with the PES
+						// start code 00 00 01 is taken for a PES packet
+						sig = "first-packet-pusi=0/no-start-code"
+						for _, raw := range pk {
+							p, err := refts.DecodePacket(raw)
+							if err == nil && p.PID == pid && !p.PUSI && p.HasPayload() && p.CC == g.d.FirstPacket.Header.ContinuityCounter &&
+								len(p.Payload) >= 3 && p.Payload[0] == 0 && p.Payload[1] == 0 && p.Payload[2] == 1 {
+								sig = "first-packet-pusi=0"
+							}
+						}
 					}
 					cls := "foreign-unit"
 					for x := 0; x < len(bs); x++ {
